@@ -356,7 +356,11 @@ def correspond(ctx):
         line, ans = sim.line(), sim.answer()
         suite.add_raw(line, ans, tag)
         # independent reader on the exported text (only when every stored hash is a plain token)
-        text = sim.f.to_string()
+        try:
+            text = sim.f.to_string()
+        except Exception as e:  # noqa: BLE001
+            suite.mismatches.append({"input": line, "impl": "to_string() raised " + errname(e) + ": " + str(e)[:80], "model": "an export"})
+            return
         live = {(k if isinstance(k, tuple) else (k,)): sim.b(v) for k, v in sim.f._records.items()}
         ok_fields = all(b":" not in v and b"\n" not in v and v == v.rstrip() and not k[0].lstrip().startswith(b"#") for k, v in live.items())
         if ok_fields:
